@@ -435,11 +435,14 @@ def run(rep, tier, seed, replay):
     ok, thms = vlib.proof_gates(rep, "C09")
     nr, nt, nd = sizes(tier)
     only = None
+    n_tr_replay = None
     if replay:
         r = json.load(open(replay))
-        a = r.get("engine_args")
-        if a:
+        a = r.get("engine_args") or (r.get("failing_input") or {}).get("engine_args")
+        if a and len(a) == 4:
             seed, nr, nt, nd = a
+        elif a and len(a) == 2:
+            seed, n_tr_replay = a
         only = r.get("desc") or r.get("ms")
     p = vlib.sh([hbin, "ext", str(seed), str(nr), str(nt), str(nd)], timeout=3000)
     if p.returncode != 0:
@@ -506,7 +509,7 @@ def run(rep, tier, seed, replay):
         rep.violation(key, what, dict(inp, property="C09", engine="ext", engine_args=args), True)
         found_real = found_real or len(rep.violations) > before
     # ---- execution figures: opcode count and stack depth on the extracted instrumented semantics
-    n_tr = 6000 if tier == "thorough" else 500
+    n_tr = n_tr_replay or (6000 if tier == "thorough" else 500)
     tbad, tsum, thist = run_traces(hbin, seed, n_tr)
     for b in tbad:
         what = b.get("what")
@@ -545,8 +548,11 @@ def run(rep, tier, seed, replay):
                 before = len(rep.violations)
                 rep.violation(key, what, dict(inp, property="C09", engine="ext"), True)
                 found_real = found_real or len(rep.violations) > before
+    # a broken tie is reported with the failing input the oracle found for the property itself (if any)
+    first_real = next((v["replay"] for v in rep.violations if v["found_input"]), None)
     for key, what, inp in tie_breaks:
-        rep.violation(key, what, dict(inp, property="C09", broken_tie="Tables/ExtCasesCheck.v (model Ms/ExtModel.v vs implementation)", engine_args=args), False)
+        rep.violation(key, what, dict(inp, property="C09", broken_tie="Tables/ExtCasesCheck.v (model Ms/ExtModel.v vs implementation)",
+                                      engine_args=args, failing_input=first_real), first_real is not None)
 
     hist = collections.Counter()
     for t in T:
